@@ -29,6 +29,7 @@ import (
 	"github.com/google/uuid"
 
 	"github.com/tochemey/goakt/v4/internal/queue"
+	"github.com/tochemey/goakt/v4/internal/verifhook"
 )
 
 // Subscriber defines the subscriber interface.
@@ -91,6 +92,7 @@ func (s *subscriber) Topics() []string {
 }
 
 func (s *subscriber) Shutdown() {
+	verifhook.At("es.shutdown", s, 0, 0)
 	s.active.Store(false)
 }
 
@@ -100,6 +102,7 @@ func (s *subscriber) Shutdown() {
 // Messages enqueued concurrently with (or after) the call are not guaranteed to
 // be included in this iterator.
 func (s *subscriber) Iterator() chan *Message {
+	verifhook.At("es.iter.len", s, 0, 0)
 	n := int(s.messages.Length())
 	out := make(chan *Message, n)
 	for range n {
@@ -115,6 +118,7 @@ func (s *subscriber) Iterator() chan *Message {
 
 func (s *subscriber) signal(message *Message) {
 	// only receive message when active
+	verifhook.At("es.sig.active", s, 0, 0)
 	if s.active.Load() {
 		s.messages.Enqueue(message)
 	}
